@@ -168,10 +168,15 @@ plumb_getbuffer(Source *src)
     return b;
 }
 
+/* endpoints are set up by the init functions or by the header's initialiser macros, alternately */
+static unsigned mk_toggle;
 static void
 mk_src(Source *s, struct drv *d)
 {
-    if (d->chunk)
+    if ((mk_toggle++ + vh_unit_salt) & 1u) {
+        const Source oc = OCTET_SOURCE_INIT(src_octet, d), ch = CHUNK_SOURCE_INIT(src_chunk, d);
+        *s = d->chunk ? ch : oc;
+    } else if (d->chunk)
         chunk_source_init(s, src_chunk, d);
     else
         octet_source_init(s, src_octet, d);
@@ -179,7 +184,10 @@ mk_src(Source *s, struct drv *d)
 static void
 mk_snk(Sink *s, struct drv *d)
 {
-    if (d->chunk)
+    if ((mk_toggle++ + vh_unit_salt) & 2u) {
+        const Sink oc = OCTET_SINK_INIT(snk_octet, d), ch = CHUNK_SINK_INIT(snk_chunk, d);
+        *s = d->chunk ? ch : oc;
+    } else if (d->chunk)
         chunk_sink_init(s, snk_chunk, d);
     else
         octet_sink_init(s, snk_octet, d);
